@@ -232,6 +232,29 @@ func init() {
 		delete(f.nodes, p)
 		return iface{}
 	})
+	reg("os.Rename", func(i *interpreter, fr *frame, args []value) value {
+		from, to := pathArg(args[0]), pathArg(args[1])
+		f := i.env.fsm()
+		n := f.nodes[from]
+		if n == nil {
+			return i.pathErr("rename", from, "no such file or directory", true)
+		}
+		if n.dir {
+			unsupportedf("os.Rename of a directory")
+		}
+		if t := f.nodes[to]; t != nil && t.dir {
+			return i.pathErr("rename", to, "file exists", false)
+		}
+		if !f.parentIsDir(to) {
+			return i.pathErr("rename", to, "no such file or directory", true)
+		}
+		if !f.step("rename", to) {
+			return i.pathErr("rename", from, "input/output error", false)
+		}
+		delete(f.nodes, from)
+		f.nodes[to] = n
+		return iface{}
+	})
 	reg("os.RemoveAll", func(i *interpreter, fr *frame, args []value) value {
 		p := pathArg(args[0])
 		f := i.env.fsm()
